@@ -204,6 +204,10 @@ partial def evalBuilder : Sexp → Option Cfg
       | .list [.atom "pad_style", .atom "some0"] => pure (b, true)
       | _ => none) (({ pt := u8 p, min := m, body := bd } : CustomBuilder), false)
     pure (.custom b some0)
+  | .list [.atom "unit", pt] => do
+    -- the zero-sized third-party writer: exactly `(custom PT 8 00000000)`
+    let p ← pt.toNat?
+    pure (.custom ({ pt := u8 p, min := 8, body := [0, 0, 0, 0] } : CustomBuilder) false)
   | s@(.list (.atom "chunk" :: _)) => do pure (.chunk (← evalChunk s))
   | s@(.list (.atom "item" :: _)) => do pure (.item (← evalItem s))
   | s => do pure (.fci (← evalFci s))
@@ -370,7 +374,7 @@ def execBuild (b : Sexp) (bufs : List Sexp) : Out := Id.run do
     | some kind, .ok n =>
       let (buf', r) := w.writeInto (List.replicate n 0xa5)
       match r with
-      | .ok m => o := o ++ dumpView "rt." kind (buf'.take m)
+      | .ok m => o := o ++ dumpViewAgain "rt." kind (buf'.take m)
       | .err e => o := o.push ("rt.res", "write-err:" ++ renderWriteError e)
       | .panic => o := o.push ("rt.res", "panic-write")
     | _, _ => pure ()
@@ -487,8 +491,8 @@ def execRequest (line : String) : Out :=
       -- dumps are the normal one; not reported for inputs longer than 70000 bytes
       let shift : Out := if d.length > 70000 then #[] else #[("shift_same", "true")]
       match k with
-      | .custom pt min => if customGrid pt min then dumpView "" k d ++ shift else #[("bad-request", "custom-grid")]
-      | _ => dumpView "" k d ++ shift ++ specParseLines k d
+      | .custom pt min => if customGrid pt min then dumpViewAgain "" k d ++ shift else #[("bad-request", "custom-grid")]
+      | _ => dumpViewAgain "" k d ++ shift ++ specParseLines k d
     | _, _ => #[("bad-request", "parse-args")]
   | some (.list [.atom "pad", kind, bytes, n]) =>
     match parsePKind kind, bytes.toBytes?, n.toNat? with
